@@ -89,14 +89,17 @@ def instance_doc(case):
         V = ZONE if i == "zone" else value_V(i)
         kids.append({"t": "assign", "key": k, "value": V, "lead": [], "trail": None})
     nested = case.get("nested") or []
+    # half of the documents write their blocks with a routing target (NAME[->§TARGET]:): a repair below a block leaves the
+    # block's own header alone
+    tg = "AUDIT_LOG" if (len(case["assigns"]) + len(nested)) % 2 == 0 else None
     if nested:
         # occurrences of schema field names below the schema block (a sub-block) with perturbed values
-        kids.append({"t": "block", "key": "SUB_1", "target": None, "lead": [], "tail": [],
+        kids.append({"t": "block", "key": "SUB_1", "target": tg, "lead": [], "tail": [],
                      "kids": [{"t": "assign", "key": k, "value": ZONE if i == "zone" else value_V(i), "lead": [], "trail": None} for k, i in nested]})
-    body = [{"t": "block", "key": case["name"], "target": None, "kids": kids, "lead": [], "tail": []}]
+    body = [{"t": "block", "key": case["name"], "target": tg, "kids": kids, "lead": [], "tail": []}]
     if nested and case.get("unrelated"):
         # ... and in a block the schema says nothing about
-        body.append({"t": "block", "key": "ELSEWHERE", "target": None, "lead": [], "tail": [],
+        body.append({"t": "block", "key": "ELSEWHERE", "target": "SELF" if tg else None, "lead": [], "tail": [],
                      "kids": [{"t": "assign", "key": k, "value": ZONE if i == "zone" else value_V(i), "lead": [], "trail": None} for k, i in nested]})
     if case.get("unrelated"):
         body.insert(0, {"t": "assign", "key": "TOPLEVEL", "value": V_str("active"), "lead": ["c"], "trail": None})
